@@ -2,6 +2,7 @@ import ClusterVerif.Spec.C13
 import Driver.Parse
 import Driver.PinParse
 import Driver.C13Import
+import ClusterVerif.Model.C13Flow
 /-! C13 driver: parses one case line, runs the bookkeeping model on the observed block stream,
     evaluates the Spec clauses on what the implementation showed. Core Lean only. -/
 namespace CV.C13
@@ -152,6 +153,12 @@ def contentCase (pre post : List (String × String)) (o : Obs) : Option Imp.Cont
          sizeChunk := Imp.sizeChunker chunker, car := fmt == "car", tree := tree,
          streamIds := o.stream.map (·.id), dag := dag, files := files }
 
+/-- `FromFiles` (Model/C13Flow.lean) never reaches an `Add` of the DAG service nor `Finalize` for this format / wrap,
+    whatever the entries do: unknown format, wrapped CAR upload -/
+def frontRefuses (fmt : String) (wrap : Bool) : Bool :=
+  let f := if fmt == "car" then Flow.Format.car else if fmt == "bad" then Flow.Format.bad else Flow.Format.unixfs
+  (Flow.fromFiles ⟨f, wrap, false, [some 1], some 1, none, false⟩).finalize.isNone
+
 def answer (ws : List String) : String :=
   match splitArrow ws with
   | none => "bad-case no-arrow"
@@ -175,6 +182,9 @@ def answer (ws : List String) : String :=
       else
         let v := compare c o m
         if !v.agree then "diff arm=" ++ a ++ " model=" ++ v.why
+        else if frontRefuses ((getKV (kvOf pre) "fmt").getD "") ((getKV (kvOf pre) "wrap").getD "0" == "1")
+                && (o.fin.isSome || !o.stream.isEmpty || o.status == .ok) then
+          "diff arm=" ++ a ++ " model=front:refused-input-went-on"
         else
           -- the delivered DAG and the stream against the importer model (successful adds that lost no block)
           let cdiff := if o.status == .ok && o.failed.isEmpty then
